@@ -615,6 +615,56 @@ def make_val_events(ctx):
         return [n for n in body.find_calls(lambda n: n.qname == 'std::iter::Iterator::next')
                 if qcall.bb in ctx.base_call_bbs(body.orig_operand(n.args[0]))]
 
+    def m_hidden_w_adaptor(body, c):
+        """the same guard written with an iterator adaptor over the recorded readers:
+        `readers.find(|r| !requires(r, src))` + abort on Some, `.any(..)` + abort on true, `.all(|r| requires(r, src))` + abort on false,
+        `.position(..)` + abort on Some."""
+        inf = ctx.infeasible(body)
+        for fc in body.find_calls(lambda f: f.qname in ('std::iter::Iterator::find', 'std::iter::Iterator::any', 'std::iter::Iterator::all', 'std::iter::Iterator::position')
+                                  and len(f.args) >= 2 and c.bb in ctx.base_call_bbs(body.orig_operand(f.args[0]))):
+            for o in body.orig_operand(fc.args[1]):
+                if o.kind != 'aggr':
+                    continue
+                st = body.blocks[o.key[0]]['stmts'][o.key[1]]
+                cb = F.bodies.get(st['rv']['ak'].get('closure'))
+                if cb is None:
+                    continue
+                ts = [t for t in cb.find_calls(lambda t: F.callee_body(t) is not None and F.callee_body(t).id == roles.trans_req.id)
+                      if all(x.kind == 'arg' and x.key == 2 for x in cb.orig_operand(t.args[1])) and all(x.kind == 'arg' and x.key == 1 for x in cb.orig_operand(t.args[2]))]
+                if len(ts) != 1:
+                    continue
+                # polarity of the closure result w.r.t. the reachability answer
+                neg = None
+                ds = cb.defs.get(0, [])
+                if len(ds) == 1 and ds[0][0] == 'stmt' and ds[0][3]['k'] == 'un' and ds[0][3]['uop'] == 'Not' and ctx.base_call_bbs(cb.orig_operand(F.operand(ds[0][3]['a']))) == {ts[0].bb}:
+                    neg = True
+                elif ctx.base_call_bbs(cb.orig_local(0)) == {ts[0].bb} and len(cb.orig_local(0)) == 1 and not any(d[0] == 'stmt' and d[3]['k'] == 'un' for d in ds):
+                    neg = False
+                if neg is None or len(cb.returns()) != 1:
+                    continue
+                name = fc.qname.split('::')[-1]
+                if name in ('find', 'any', 'position') and not neg:
+                    continue  # selects readers that DO require the writer
+                if name == 'all' and neg:
+                    continue
+                if name in ('find', 'position'):
+                    bad_edges = [n for n, g in guard_edges_on_call(body, fc) if g.variants() == frozenset(['Some'])]
+                elif name == 'any':
+                    bad_edges = [n for n, g in guard_edges_on_call(body, fc) if g.truth() is True]
+                else:
+                    bad_edges = [n for n, g in guard_edges_on_call(body, fc) if g.truth() is False]
+                if not bad_edges:
+                    continue
+                if any(r in body.reach([e], avoid=inf) for e in bad_edges for r in body.returns()):
+                    continue
+                # the writer handed to the reachability test: the captured task node
+                caps = [F.operand(x) for x in st['rv']['ops']]
+                tn = [x for x in caps if x[0] in ('c', 'm') and roles.task_node and roles.task_node in body.local_ty(x[1][0])]
+                if len(tn) != 1:
+                    continue
+                return (body.orig_operand(c.args[1]), body.orig_operand(tn[0]))
+        return None
+
     def m_hidden_w(body, node):
         if isinstance(node, tuple):
             return None
@@ -623,7 +673,7 @@ def make_val_events(ctx):
             return None
         nexts = loop_over(body, c)
         if len(nexts) != 1:
-            return None
+            return m_hidden_w_adaptor(body, c) if not nexts else None
         nx = nexts[0]
         inf = ctx.infeasible(body)
         some_edges = [n for n, g in guard_edges_on_call(body, nx) if g.variants() == frozenset(['Some'])]
